@@ -140,14 +140,19 @@ def build_coq(targets=None, timeout=3000):
         p = sh(cmd, cwd=COQ, stdout=subprocess.PIPE, stderr=subprocess.STDOUT)
         return p.returncode == 0, p.stdout.decode(errors='replace')
 
+# models added after round 1: (extraction file, OCaml module it writes, driver under extract/, binary name); built when present
+OPTIONAL_MODELS = (('ExtractMisc.v', 'miscmodel', 'misc_run.ml', 'misc_run'), ('ExtractScanDyn.v', 'scandynmodel', 'scandyn_run.ml', 'scandyn_run'))
+OPTIONAL_EXTRACTS = [x for x, _, _, _ in OPTIONAL_MODELS]
+
 def build_model():
     """Extract the models and build model_run; returns the path of the binary."""
-    ok, out = build_coq(['Extract.vo', 'ExtractPlan.vo', 'ExtractDyndep.vo', 'ExtractScan.vo', 'ExtractClean.vo', 'ExtractStatus.vo', 'ExtractBuildLog.vo', 'ExtractManifest.vo', 'ExtractDepsLog.vo', 'Engine/HistRun.vo', 'Engine/HistDry.vo', 'Engine/HistFailDefs.vo', 'Engine/HistDepsDefs.vo', 'Engine/HistFaithful.vo', 'Engine/HistDepsFaithful.vo', 'Engine/HistCrashDefs.vo', 'Engine/HistParDefs.vo', 'Engine/HistDepfileDefs.vo', 'Engine/HistFailFaithful.vo', 'Engine/HistDepfileFaithful.vo', 'Engine/HistFailKDefs.vo', 'Engine/HistDyndepDefs.vo', 'Engine/HistFailKFaithful.vo', 'Engine/HistDyndepFaithful.vo'])
+    ok, out = build_coq(['Extract.vo', 'ExtractPlan.vo', 'ExtractDyndep.vo', 'ExtractScan.vo', 'ExtractClean.vo', 'ExtractStatus.vo', 'ExtractBuildLog.vo', 'ExtractManifest.vo', 'ExtractDepsLog.vo', 'Engine/HistRun.vo', 'Engine/HistDry.vo', 'Engine/HistFailDefs.vo', 'Engine/HistDepsDefs.vo', 'Engine/HistFaithful.vo', 'Engine/HistDepsFaithful.vo', 'Engine/HistCrashDefs.vo', 'Engine/HistParDefs.vo', 'Engine/HistDepfileDefs.vo', 'Engine/HistFailFaithful.vo', 'Engine/HistDepfileFaithful.vo', 'Engine/HistFailKDefs.vo', 'Engine/HistDyndepDefs.vo', 'Engine/HistFailKFaithful.vo', 'Engine/HistDyndepFaithful.vo'] + [x[:-2] + '.vo' for x in OPTIONAL_EXTRACTS if os.path.exists(os.path.join(COQ, x))])
     if not ok:
         raise BuildError('the model definitions no longer compile:\n' + out[-3000:])
     with Lock('model'):
         srcs = [os.path.join(COQ, s) for s in coq_sources() if not s.startswith('Properties/')] + \
-               [os.path.join(VERIF, 'extract', 'model_run.ml'), os.path.join(VERIF, 'extract', 'depslog_run.ml'), os.path.join(VERIF, 'extract', 'manifest_run.ml'), os.path.join(VERIF, 'extract', 'plan_run.ml'), os.path.join(VERIF, 'extract', 'dyndep_run.ml'), os.path.join(VERIF, 'extract', 'scan_run.ml'), os.path.join(VERIF, 'extract', 'buildlog_run.ml'), os.path.join(VERIF, 'extract', 'clean_run.ml'), os.path.join(VERIF, 'extract', 'status_run.ml'), os.path.join(VERIF, 'extract', 'hist_run.ml'), os.path.join(COQ, 'ExtractHist.v')]
+               [os.path.join(VERIF, 'extract', 'model_run.ml'), os.path.join(VERIF, 'extract', 'depslog_run.ml'), os.path.join(VERIF, 'extract', 'manifest_run.ml'), os.path.join(VERIF, 'extract', 'plan_run.ml'), os.path.join(VERIF, 'extract', 'dyndep_run.ml'), os.path.join(VERIF, 'extract', 'scan_run.ml'), os.path.join(VERIF, 'extract', 'buildlog_run.ml'), os.path.join(VERIF, 'extract', 'clean_run.ml'), os.path.join(VERIF, 'extract', 'status_run.ml'), os.path.join(VERIF, 'extract', 'hist_run.ml'), os.path.join(COQ, 'ExtractHist.v')] + \
+               [p for x, ml, drv, exe in OPTIONAL_MODELS for p in (os.path.join(COQ, x), os.path.join(VERIF, 'extract', drv)) if os.path.exists(p)]
         h = _hash_files(srcs)
         d = os.path.join(CACHE, 'model-' + h)
         if os.path.exists(os.path.join(d, 'OK')):
@@ -162,7 +167,7 @@ def build_model():
                cwd=d, stdout=subprocess.PIPE, stderr=subprocess.STDOUT)
         if p.returncode != 0:
             raise BuildError('ocaml build of model_run failed:\n' + p.stdout.decode(errors='replace')[-3000:])
-        for ext, ml, drv, exe in (('ExtractPlan.v', 'planmodel', 'plan_run.ml', 'plan_run'), ('ExtractDyndep.v', 'dyndepmodel', 'dyndep_run.ml', 'dyndep_run'), ('ExtractScan.v', 'scanmodel', 'scan_run.ml', 'scan_run'), ('ExtractClean.v', 'cleanmodel', 'clean_run.ml', 'clean_run'), ('ExtractStatus.v', 'statusmodel', 'status_run.ml', 'status_run'), ('ExtractBuildLog.v', 'buildlogmodel', 'buildlog_run.ml', 'buildlog_run'), ('ExtractManifest.v', 'manifestmodel', 'manifest_run.ml', 'manifest_run'), ('ExtractDepsLog.v', 'depslogmodel', 'depslog_run.ml', 'depslog_run'), ('ExtractHist.v', 'histmodel', 'hist_run.ml', 'hist_run')):
+        for ext, ml, drv, exe in (('ExtractPlan.v', 'planmodel', 'plan_run.ml', 'plan_run'), ('ExtractDyndep.v', 'dyndepmodel', 'dyndep_run.ml', 'dyndep_run'), ('ExtractScan.v', 'scanmodel', 'scan_run.ml', 'scan_run'), ('ExtractClean.v', 'cleanmodel', 'clean_run.ml', 'clean_run'), ('ExtractStatus.v', 'statusmodel', 'status_run.ml', 'status_run'), ('ExtractBuildLog.v', 'buildlogmodel', 'buildlog_run.ml', 'buildlog_run'), ('ExtractManifest.v', 'manifestmodel', 'manifest_run.ml', 'manifest_run'), ('ExtractDepsLog.v', 'depslogmodel', 'depslog_run.ml', 'depslog_run'), ('ExtractHist.v', 'histmodel', 'hist_run.ml', 'hist_run')) + OPTIONAL_MODELS:
             if not os.path.exists(os.path.join(COQ, ext)): continue
             p = sh(['coqc', '-Q', COQ, 'NinjaV', os.path.join(COQ, ext), '-o', os.path.join(d, ext[:-2] + '.vo')],
                    cwd=d, stdout=subprocess.PIPE, stderr=subprocess.STDOUT)
